@@ -133,6 +133,57 @@ theorem createDir_propagates_of_rollback (env : Env) (fuel : Nat) (d : DirStream
   · exact hfree c d1 d2 e h1 (by rw [h2]; simp) h3
   · exact hE.noX f e hx
 
+/-! ### what the partial theorems do guarantee, unconditionally
+
+`PropagatesX X p` never lets a fault outside a destructor go unnoticed: the result is an error — `io k`, or the error of a
+roll-back step run after the fault. The residual case in real-world terms: the storage failed ONCE, while `write_entry`
+was writing a slot (possibly inside the FAT update that grows the directory); the operation then re-positions the
+directory stream on the first slot it wrote and overwrites one byte per slot (resp. `create_dir` frees the one cluster it
+had allocated) — with the storage working again. That roll-back can only fail for a non-storage reason: the cluster chain
+of the directory, re-walked from the FAT by `seek`, is inconsistent (`CorruptedFileSystem`/`UnexpectedEof` from a FAT the
+failed write left half-updated in the first copy), a seek target beyond 4 GiB, or one of the model's panics. Excluding these
+needs an invariant of the directory stream and of the FAT (the range `[start_pos, cur)` was just traversed by the same
+stream; the only FAT write in between is the appended cluster), which the error-flow proof does not carry.
+
+Under a PERSISTENT fault (every device call from the failing one on fails) the picture is not better for `Propagates` as
+stated: the roll-back's first device call fails as well and ITS error `io k'` (`k' > k`) is returned by
+`free_written_entries(..)?` — an I/O error, but not the one of call `k`; so the one-shot schedule is the reading under which
+"the error of the failed call surfaces" is the sharper statement, and the persistent reading would weaken the conclusion
+to "some `io`". (Not formalised: it needs a second interpreter with a persistent schedule.) -/
+
+/-- after a fault outside a destructor the result of a `PropagatesX` program is never `ok` -/
+theorem PropagatesX.faulted_is_error {α} {X : Fault → Err → Prop} {p : Prog α} (hp : PropagatesX X p)
+    {d : Dev} (hd : d.fault = none) {r d'} (hr : run p d = (r, d')) {f : Fault} (hf : d'.fault = some f)
+    (hnd : f.inDrop = false) : ∃ e, r = .error e ∧ (e = .io f.k ∨ X f e) := by
+  rcases hp d hd r d' hr with h | ⟨_, f', h2, h3⟩
+  · rw [h] at hf; cases hf
+  · rw [hf] at h2; cases h2
+    cases r with
+    | ok v => rcases h3 hnd with h | ⟨e, h, _⟩ <;> simp [resErr] at h
+    | error e =>
+      refine ⟨e, rfl, ?_⟩
+      rcases h3 hnd with h | ⟨e', h, hx⟩
+      · simp only [resErr, Option.some.injEq] at h; exact Or.inl h
+      · simp only [resErr, Option.some.injEq] at h; subst h; exact Or.inr hx
+
+/-- `create_file`, `rename`, `create_dir`: a fault outside a destructor always yields an error — `io k`, or the error of
+    a roll-back (`write_entry`'s `free_written_entries`, `create_dir`'s `free_cluster_chain`) run after the fault -/
+theorem createFile_faulted_is_error (env : Env) (fuel : Nat) (dir : DirStream) (path : String) {d : Dev}
+    (hd : d.fault = none) {r d'} (hr : run (createFile env fuel dir path) d = (r, d')) {f : Fault}
+    (hf : d'.fault = some f) (hnd : f.inDrop = false) : ∃ e, r = .error e ∧ (e = .io f.k ∨ EntryRollbackX f e) :=
+  (createFile_propagatesX env fuel dir path).faulted_is_error hd hr hf hnd
+
+theorem rename_faulted_is_error (env : Env) (fuel : Nat) (dir : DirStream) (src : String) (dst : DirStream)
+    (dstPath : String) {d : Dev} (hd : d.fault = none) {r d'}
+    (hr : run (rename env fuel dir src dst dstPath) d = (r, d')) {f : Fault} (hf : d'.fault = some f)
+    (hnd : f.inDrop = false) : ∃ e, r = .error e ∧ (e = .io f.k ∨ EntryRollbackX f e) :=
+  (rename_propagatesX env fuel dir src dst dstPath).faulted_is_error hd hr hf hnd
+
+theorem createDir_faulted_is_error (env : Env) (fuel : Nat) (dir : DirStream) (path : String) {d : Dev}
+    (hd : d.fault = none) {r d'} (hr : run (createDir env fuel dir path) d = (r, d')) {f : Fault}
+    (hf : d'.fault = some f) (hnd : f.inDrop = false) : ∃ e, r = .error e ∧ (e = .io f.k ∨ ApiX f e) :=
+  (createDir_propagatesX env fuel dir path).faulted_is_error hd hr hf hnd
+
 /-! ## summary -/
 
 /-- the programs `Session.step` runs, operation by operation (Model/Api.lean); the users of `write_entry`
